@@ -200,8 +200,11 @@ TTrie == /\ IsEvent("trie") /\ pc \in {"cl2", "sc1"} /\ Ev.r = run.r
                 cl == DescAst(ClustersAst(run.cl))
                 okA == Acyclic(Ev)
                 eq == okA /\ Same(lang, cl)
-                mtrie == BuildTrie(run.cl, AsBuilt)
-                same == SameGraph(Ev, mtrie, 0)
+                \* Level-2 conformance is assessed on plain runs (the transcription identifies a symbol with its
+                \* characters; under class conversion / (?i) the code's label order is not available) of bounded size
+                l2 == ~AnyClass(run.cfg) /\ ~run.cfg.icase /\ Len(Ev.nodes) <= 24
+                mtrie == IF l2 \/ (~eq /\ Ev.widen > 0) THEN BuildTrie(run.cl, AsBuilt) ELSE EmptyGr
+                same == ~l2 \/ SameGraph(Ev, mtrie, 0)
                 asb == IF ~eq /\ Ev.widen > 0 THEN DescGraph(AsGraph(mtrie, 0)) ELSE Nothing
                 why == IF eq THEN "ok"
                        ELSE IF okA /\ Ev.widen > 0 /\ Same(lang, asb) THEN "widen" ELSE "no"
@@ -211,7 +214,7 @@ TTrie == /\ IsEvent("trie") /\ pc \in {"cl2", "sc1"} /\ Ev.r = run.r
                /\ run' = [run EXCEPT !.glang = lang, !.widen = Ev.widen, !.mtrie = mtrie,
                                      !.widened = (why = "widen"), !.asbuilt = asb,
                                      !.firstbad = FirstBad(why = "ok", "trie")]
-               /\ cnt' = Bump({"trie", IF same THEN "l2-trie-same" ELSE "l2-trie-diff"}
+               /\ cnt' = Bump({"trie"} \cup (IF l2 THEN {IF same THEN "l2-trie-same" ELSE "l2-trie-diff"} ELSE {})
                               \cup (IF Ev.widen > 0 THEN {"trie-widened"} ELSE {}))
          /\ pc' = IF pc = "cl2" THEN "trie" ELSE "trie2"
          /\ l' = l + 1
@@ -224,15 +227,16 @@ TMin == /\ IsEvent("min") /\ pc = "trie" /\ Ev.r = run.r
                       ELSE IF okA /\ HasEps(run.glang) /\ ~HasEps(lang) /\ SameNoEps(lang, run.glang)
                            THEN "eps-dropped" ELSE "no"
                okS == run.cfg.rep \/ MinShapeOk(Ev)
-               mmin == Minimize(run.mtrie, AsBuilt)
-               sameM == SameGraph(Ev, mmin, mmin.init)
+               l2 == ~AnyClass(run.cfg) /\ ~run.cfg.icase /\ run.mtrie.n > 1 /\ run.mtrie.n <= 24
+               mmin == IF l2 THEN Minimize(run.mtrie, AsBuilt) ELSE EmptyGr @@ [init |-> 0]
+               sameM == ~l2 \/ SameGraph(Ev, mmin, mmin.init)
            IN /\ Judge(okA, {"C16"}, "min-cyclic", "")
               /\ JudgeX(why, {"C16"}, "min-lang")
               /\ Judge(okS, {"C16"}, "min-shape", "")
               /\ Judge(sameM, {"TOOL"}, "level2-drift-min", "")
               /\ run' = [run EXCEPT !.glang = lang, !.eps = (why = "eps-dropped"), !.mmin = mmin,
                                     !.firstbad = FirstBad(why = "ok", "min")]
-              /\ cnt' = Bump({"min", IF sameM THEN "l2-min-same" ELSE "l2-min-diff"}
+              /\ cnt' = Bump({"min"} \cup (IF l2 THEN {IF sameM THEN "l2-min-same" ELSE "l2-min-diff"} ELSE {})
                              \cup (IF run.cfg.rep THEN {} ELSE {"min-shape"}))
         /\ pc' = "min" /\ l' = l + 1
         /\ UNCHANGED <<G, tcs, memo>>
@@ -245,7 +249,7 @@ TExpr == /\ IsEvent("expr") /\ pc \in {"min", "trie2"} /\ Ev.r = run.r
                 why == IF ~TrimAst(Ev.ast) THEN "no" ELSE Expl(lang, run.glang)
                 \* Level-2 conformance of state elimination (plain runs only: the transcription works on
                 \* characters, class tokens and fold orbits are outside it)
-                plain == pc = "min" /\ ~AnyClass(run.cfg) /\ ~run.cfg.icase
+                plain == pc = "min" /\ ~AnyClass(run.cfg) /\ ~run.cfg.icase /\ run.mmin.n > 1 /\ run.mtrie.n <= 24
                 sameE == ~plain \/ SameAst(Ev.ast, XToLang(ToExpr(run.mmin, run.mmin.init)))
             IN /\ JudgeX(why, {"C16"}, "expr")
                /\ Judge(sameE, {"TOOL"}, "level2-drift-expr", "")
